@@ -33,10 +33,13 @@ structure Main (s : St) : Prop where
   taken_le : s.outTaken ≤ s.out.length
   pipeEnded : (s.outSt = .endedOk ∨ s.outSt = .aborted) → s.vSending.st = .disabled
 
-structure Aux (s : St) : Prop where
-  body : s.parsing = .body → s.head = .adapted ∧ s.outSt ≠ .noPipe ∧ s.uob = none
+/-- `w` = inside the window between prepPartialBodyEchoing() and the end of parseBody(), where use-original-body is already recorded -/
+structure AuxG (w : Bool) (s : St) : Prop where
+  body : s.parsing = .body → s.head = .adapted ∧ s.outSt ≠ .noPipe ∧ (w = false → s.uob = none)
   icapH : s.parsing = .icapHeader → s.head ≠ .virginClone ∧ s.outSt = .noPipe
   httpH : s.parsing = .httpHeader → s.sending = .adapted ∧ s.head ≠ .virginClone ∧ s.outSt = .noPipe
+
+abbrev Aux := AuxG false
 
 /-- the fields `Main`, `Aux` and `EndOk` read -/
 structure SameCore (s t : St) : Prop where
@@ -87,7 +90,7 @@ structure SameAux (s t : St) : Prop where
   sending : t.sending = s.sending
   uob : t.uob = s.uob
 
-theorem Aux.of_sameAux {s t : St} (h : SameAux s t) (a : Aux s) : Aux t := by
+theorem AuxG.of_sameAux {w : Bool} {s t : St} (h : SameAux s t) (a : AuxG w s) : AuxG w t := by
   obtain ⟨h16, h11, h6, h15, h8⟩ := h
   constructor
   · rw [h16, h11, h6, h8]; exact a.body
@@ -96,7 +99,7 @@ theorem Aux.of_sameAux {s t : St} (h : SameAux s t) (a : Aux s) : Aux t := by
 
 theorem SameCore.aux {s t : St} (h : SameCore s t) : SameAux s t := ⟨h.parsing, h.head, h.outSt, h.sending, h.uob⟩
 
-theorem Aux.of_same {s t : St} (h : SameCore s t) (a : Aux s) : Aux t := a.of_sameAux h.aux
+theorem AuxG.of_same {w : Bool} {s t : St} (h : SameCore s t) (a : AuxG w s) : AuxG w t := a.of_sameAux h.aux
 
 theorem SameCore.rfl' (s : St) : SameCore s s := ⟨rfl, rfl, rfl, rfl, rfl, rfl, rfl, rfl, rfl, rfl, rfl, rfl, rfl, rfl, rfl, rfl, rfl, rfl⟩
 
@@ -106,7 +109,7 @@ theorem SameCore.trans {s t u : St} (a : SameCore s t) (b : SameCore t u) : Same
    b.answer.trans a.answer, b.lastSeen.trans a.lastSeen, b.sending.trans a.sending, b.parsing.trans a.parsing, b.outTaken.trans a.outTaken, b.vst.trans a.vst⟩
 
 /-- `f` keeps `Main` at every exit (whatever else holds) and `Aux` at its non-throwing exits -/
-def Keeps (f : Op) : Prop := (∀ s, Main s → Main (f s)) ∧ (∀ s, Main s → Aux s → (f s).thrown = false → Aux (f s))
+def Keeps (f : Op) : Prop := (∀ s, Main s → Main (f s)) ∧ (∀ w s, Main s → AuxG w s → (f s).thrown = false → AuxG w (f s))
 
 theorem keeps_seq {f g : Op} (hf : Keeps f) (hg : Keeps g) : Keeps (f ;; g) := by
   constructor
@@ -115,31 +118,31 @@ theorem keeps_seq {f g : Op} (hf : Keeps f) (hg : Keeps g) : Keeps (f ;; g) := b
     unfold seq; dsimp only; split
     · exact hf.1 s m
     · exact hg.1 _ (hf.1 s m)
-  · intro s m a
-    show (seq f g s).thrown = false → Aux (seq f g s)
+  · intro w s m a
+    show (seq f g s).thrown = false → AuxG w (seq f g s)
     unfold seq; dsimp only
     by_cases ht : (f s).thrown = true
     · simp only [ht, if_true]; intro h; cases h
     · have ht' : (f s).thrown = false := by simpa using ht
       simp only [ht', Bool.false_eq_true, if_false]
-      exact hg.2 _ (hf.1 s m) (hf.2 s m a ht')
+      exact hg.2 w _ (hf.1 s m) (hf.2 w s m a ht')
 
 theorem keeps_cond {c : St → Bool} {t e : Op} (ht : Keeps t) (he : Keeps e) : Keeps (cond c t e) := by
   constructor
   · intro s m; unfold Icap.cond; split
     · exact ht.1 s m
     · exact he.1 s m
-  · intro s m a; unfold Icap.cond; split
-    · exact ht.2 s m a
-    · exact he.2 s m a
+  · intro w s m a; unfold Icap.cond; split
+    · exact ht.2 w s m a
+    · exact he.2 w s m a
 
-theorem keeps_skip : Keeps skip := ⟨fun _ m => m, fun _ _ a _ => a⟩
+theorem keeps_skip : Keeps skip := ⟨fun _ m => m, fun _ _ _ a _ => a⟩
 
 theorem keeps_whenOp {c : St → Bool} {t : Op} (ht : Keeps t) : Keeps (whenOp c t) := keeps_cond ht keeps_skip
 
 /-- an operation that leaves the fields read by the invariants alone -/
 theorem keeps_of_same {f : Op} (h : ∀ s, SameCore s (f s)) (hb : ∀ s, (f s).canStartBypass = true → s.canStartBypass = true) : Keeps f :=
-  ⟨fun s m => m.of_same (h s) (hb s), fun s _ a _ => a.of_same (h s)⟩
+  ⟨fun s m => m.of_same (h s) (hb s), fun _ s _ a _ => a.of_same (h s)⟩
 
 theorem same_setThrown (s : St) : SameCore s { s with thrown := true } := ⟨rfl, rfl, rfl, rfl, rfl, rfl, rfl, rfl, rfl, rfl, rfl, rfl, rfl, rfl, rfl, rfl, rfl, rfl⟩
 
